@@ -9,6 +9,7 @@ import (
 	"os"
 	"path/filepath"
 	"regexp"
+	"runtime/pprof"
 	"sort"
 	"strconv"
 	"strings"
@@ -34,6 +35,7 @@ type TierSpec struct {
 	Unwind    int      `json:"unwind"`     // visits per block per activation
 	MinReach  []string `json:"min_reach"`  // reach labels that must be witnessed by at least one instance
 	MaxInst   int      `json:"max_instances"`
+	Logic     string   `json:"logic"` // SMT logic (default QF_BV; QF_UFBV for harnesses with uninterpreted functions)
 	CrossFrac int      `json:"cross_every"` // cross-check every n-th instance on the other solvers (0 = tier default)
 }
 
@@ -251,7 +253,8 @@ func newEngine(ld *Loaded, hp *ssa.Package, stubs map[string]*ssa.Function, ts T
 	e.feasMs = 10000
 	e.initState = &State{G: tb.True, heap: e.base, stamp: -1}
 	if solverKind != "" {
-		e.sol = NewSolver(solverKind, tb, 600000)
+		e.sol = NewSolver(solverKind, tb, 600000, ts.Logic)
+		e.logic = ts.Logic
 	}
 	return e
 }
@@ -529,7 +532,7 @@ func crossCheck(e *Engine, g *Term, qms int, want string) string {
 					notes = append(notes, kind+":error")
 				}
 			}()
-			s := NewSolver(kind, e.TB, qms)
+			s := NewSolver(kind, e.TB, qms, e.logic)
 			defer s.Close()
 			for _, l := range e.ufLemmas { // refinement lemmas (true facts about the real functions)
 				s.define(l)
@@ -596,7 +599,13 @@ func cmdRun(argv []string) {
 	conc := fs.String("concrete", "", "comma separated input vector: run concretely")
 	replay := fs.Bool("replay", false, "replay sat models natively")
 	dump := fs.String("dump", "", "dump the SSA of this function of the harness package and exit")
+	prof := fs.String("cpuprofile", "", "write a CPU profile")
 	fs.Parse(argv)
+	if *prof != "" {
+		f, _ := os.Create(*prof)
+		pprof.StartCPUProfile(f)
+		defer pprof.StopCPUProfile()
+	}
 	var hs []HarnessSpec
 	for _, h := range loadSpecs() {
 		if h.Name == *name {
